@@ -812,10 +812,275 @@ func (h *H) planSchur(add addFn) {
 				add("gebal", n*n*n, func() { h.checkGebal(fmt.Sprintf("gebal n=%d class=%s #%d", n, cls, i), i, n, cls) })
 			}
 		}
+		idx++
+		{
+			i := idx
+			add("trexc", 3000000, func() { h.checkTrexcRejected(fmt.Sprintf("trexc rejected swaps #%d", i), i) })
+		}
 		for k := 0; k < 4; k++ {
 			idx++
 			i := idx
 			add("lanv2", 1000000, func() { h.checkLanv2(fmt.Sprintf("lanv2 #%d", i), i) })
+		}
+	}
+}
+
+// ---- Dtrexc when a swap is rejected ------------------------------------------------------
+//
+// Doc comment of Dtrexc: "If ok is false, two adjacent blocks were too close to
+// swap because the problem is very ill-conditioned. T may have been partially
+// reordered, and ilstOut will point to the first row of the block at the
+// position to which it has been moved."
+
+// pair22 is a pair of 2x2 standardised blocks with their coupling block.
+type pair22 struct{ m, n, cpl [4]float64 }
+
+// rejectingPairs searches, deterministically from the seed, for pairs of
+// adjacent 2x2 blocks whose swap Dlaexc rejects (ill-scaled blocks with nearly
+// equal real parts and a large coupling), and returns up to max of them. The
+// first candidate is a fixed pair known to be rejected by the reference
+// algorithm.
+func (h *H) rejectingPairs(cs *Case, rng *vrt.Rand, tries, max int) []pair22 {
+	var out []pair22
+	cand := func(i int) pair22 {
+		if i == 0 {
+			return pair22{
+				m:   [4]float64{1, -0.00018676383159230495, 112.94052647907522, 1},
+				n:   [4]float64{1.0268021209021085, 0.00033498106730668245, -6.838002048291588e-05, 1.0268021209021085},
+				cpl: [4]float64{-32.738857391354905, 21.590515162709245, 1.8461124356210894e-05, 98.83600239286795},
+			}
+		}
+		a := rng.Uniform(-2, 2)
+		sg := []float64{1, -1}[rng.Intn(2)]
+		b, c := -sg*math.Pow(10, -rng.Uniform(2, 5)), sg*math.Pow(10, rng.Uniform(0, 2.5))
+		d := a + rng.Uniform(0.005, 0.06)*[]float64{1, -1}[rng.Intn(2)]
+		b2, c2 := sg*math.Pow(10, -rng.Uniform(3, 5)), -sg*math.Pow(10, -rng.Uniform(3, 5))
+		var cpl [4]float64
+		for k := range cpl {
+			cpl[k] = rng.Sym() * math.Pow(10, rng.Uniform(-5, 2))
+		}
+		p := pair22{m: [4]float64{a, b, c, a}, n: [4]float64{d, b2, c2, d}, cpl: cpl}
+		if rng.Bool() {
+			p.m, p.n = p.n, p.m
+		}
+		return p
+	}
+	n := 0
+	for i := 0; i < tries && len(out) < max; i++ {
+		p := cand(i)
+		t := []float64{
+			p.m[0], p.m[1], p.cpl[0], p.cpl[1],
+			p.m[2], p.m[3], p.cpl[2], p.cpl[3],
+			0, 0, p.n[0], p.n[1],
+			0, 0, p.n[2], p.n[3],
+		}
+		t0 := cloneF(t)
+		work := make([]float64, 4)
+		ok := true
+		pn := vrt.TryFast(func() { ok = h.impl.Dlaexc(false, 4, t, 4, nil, 1, 0, 2, 2, work) })
+		n++
+		if pn != nil {
+			cs.fail("Dlaexc", "wantq=false n1=2 n2=2", "panic:"+normMsg(pn.Msg), "candidate %v", p)
+			continue
+		}
+		if ok {
+			continue
+		}
+		for k := range t {
+			if !vrt.SameBits(t[k], t0[k]) {
+				cs.fail("Dlaexc", "wantq=false n1=2 n2=2", "modified-although-refused", "ok=false but T changed (candidate %v)", p)
+				break
+			}
+		}
+		out = append(out, p)
+	}
+	h.c.EvalN("Dlaexc|screen-for-rejected-swaps", n, true)
+	h.mu.Lock()
+	h.counts["Dlaexc"] += int64(n)
+	h.mu.Unlock()
+	h.c.Count("trexc_rejecting_2x2_pairs_found", int64(len(out)))
+	return out
+}
+
+func eig22(b [4]float64) (re, im float64) {
+	return b[0], math.Sqrt(math.Abs(b[1])) * math.Sqrt(math.Abs(b[2]))
+}
+
+// checkTrexcRejected moves a block past a block it cannot be swapped with,
+// downwards and upwards, with and without Q, and judges what the doc comment
+// still promises when ok == false.
+func (h *H) checkTrexcRejected(id string, idx int) {
+	rng := h.c.RNG("trexc-rejected", idx)
+	cs := h.newCase(id, rng)
+	pairs := h.rejectingPairs(cs, rng, h.pick(1500, 6000), h.pick(5, 12))
+	for pi, p := range pairs {
+		for layout := 0; layout < 4; layout++ {
+			// Blocks on the diagonal: filler blocks with well separated
+			// eigenvalues around the pair (M above N).
+			// layout 0: [M N]; 1: [M f N]?? no - the pair stays adjacent:
+			// 0: M N | 1: M N f | 2: f M N | 3: f M N g (f 1x1, g 2x2)
+			var blocks [][4]float64 // size-1 blocks use entry 0 only
+			var sizes []int
+			add := func(b [4]float64, sz int) { blocks = append(blocks, b); sizes = append(sizes, sz) }
+			f1 := [4]float64{7, 0, 0, 0}
+			g2 := [4]float64{-5, 2, -3, -5}
+			if layout >= 2 {
+				add(f1, 1)
+			}
+			mi := len(blocks)
+			add(p.m, 2)
+			add(p.n, 2)
+			if layout == 1 {
+				add(f1, 1)
+			}
+			if layout == 3 {
+				add(g2, 2)
+			}
+			n := 0
+			starts := make([]int, len(blocks))
+			for i, sz := range sizes {
+				starts[i] = n
+				n += sz
+			}
+			t := ref.New(n, n)
+			for i := 0; i < n; i++ {
+				for j := i + 1; j < n; j++ {
+					t.D[i*n+j] = rng.Sym()
+				}
+			}
+			for i, b := range blocks {
+				s0 := starts[i]
+				t.D[s0*n+s0] = b[0]
+				if sizes[i] == 2 {
+					t.D[s0*n+s0+1], t.D[(s0+1)*n+s0], t.D[(s0+1)*n+s0+1] = b[1], b[2], b[3]
+				}
+			}
+			ms, ns := starts[mi], starts[mi+1]
+			t.D[ms*n+ns], t.D[ms*n+ns+1], t.D[(ms+1)*n+ns], t.D[(ms+1)*n+ns+1] = p.cpl[0], p.cpl[1], p.cpl[2], p.cpl[3]
+			if _, _, d := schurForm(t); d != "" {
+				continue
+			}
+			st := blockStarts(t)
+			type move struct {
+				ifst, ilst int
+				moved      [4]float64
+			}
+			moves := []move{
+				{ms + (pi+layout)%2, n - 1, p.m}, // M downwards past N (ifst on either row of M)
+				{ns + (pi+layout+1)%2, 0, p.n},   // N upwards past M
+				{ms, ns, p.m}, {ns, ms, p.n},     // exactly one swap requested
+			}
+			if layout >= 2 {
+				moves = append(moves, move{0, n - 1, f1}) // the 1x1 block passes both (swaps with a 1x1 block are not refused)
+			}
+			s := pow2Scale(t.MaxAbs())
+			ts := scaled(t, s)
+			scale := ts.NormFro()
+			fn := float64(n)
+			for mvi, mv := range moves {
+				for _, wantq := range []bool{true, false} {
+					compq := lapack.UpdateSchurNone
+					if wantq {
+						compq = lapack.UpdateSchur
+					}
+					pad := (mvi + layout + pi) % 2 * 3
+					dir := "down"
+					if mv.ilst < mv.ifst {
+						dir = "up"
+					}
+					tag := fmt.Sprintf("compq=%c ill-conditioned-pair direction=%s", rune(compq), dir)
+					tb := cs.matFrom("t", t, pad)
+					q0 := randOrtho(rng, n)
+					qb := cs.mat("q", 1, 1, 0)
+					if wantq {
+						qb = cs.matFrom("q", q0, pad)
+					}
+					work := cs.work(n)
+					var ifo, ilo int
+					var ok bool
+					if !cs.try("Dtrexc", tag, key("n", n, "layout", layout, "pad", pad), true, func() {
+						ifo, ilo, ok = h.impl.Dtrexc(compq, n, tb.s, tb.ld, qb.s, qb.ld, mv.ifst, mv.ilst, work)
+					}) {
+						continue
+					}
+					cs.checkPads("Dtrexc", tag, tb)
+					if wantq {
+						cs.checkPads("Dtrexc", tag, qb)
+					} else {
+						cs.checkUnref("Dtrexc", tag, qb)
+					}
+					if ok {
+						h.c.Count("trexc_moves_past_ill_conditioned_pair_accepted", 1)
+					} else {
+						h.c.Count("trexc_moves_with_rejected_swap", 1)
+					}
+					if ifo != st[mv.ifst] {
+						cs.fail("Dtrexc", tag, "ifstOut-not-first-row-of-block", "ifst=%d ifstOut=%d block starts at %d (ok=%v)", mv.ifst, ifo, st[mv.ifst], ok)
+					}
+					t1 := tb.get()
+					if _, _, d := schurForm(t1); d != "" {
+						cs.fail("Dtrexc", tag, "schur-form:"+d, "result is not in Schur canonical form (ok=%v)", ok)
+						continue
+					}
+					if wantq {
+						q1 := qb.get()
+						cs.band("Dtrexc", tag, "schur-vectors-orthogonality", ref.OrthoResid(q1), fn*eps, nil)
+						l := ref.Mul(q0, ref.Mul(ts, q0.T()))
+						r := ref.Mul(q1, ref.Mul(scaled(t1, s), q1.T()))
+						cs.band("Dtrexc", tag, "trexc-similarity-residual", ref.MaxDiff(l, r), fn*eps*scale, nil)
+					} else {
+						cs.band("Dtrexc", tag, "schur-norm-preserved", math.Abs(scaled(t1, s).NormFro()-scale), fn*eps*scale, nil)
+						cs.similarityInvariants("Dtrexc", tag, t, t1)
+					}
+					// ilstOut: first row of a block of the result that carries the
+					// eigenvalues of the block that was at ifst. The moved block's
+					// eigenvalue pair differs from every other block's by more
+					// than 1e-3 in these matrices, otherwise the identity of the
+					// block is not judged.
+					st1 := blockStarts(t1)
+					if ilo < 0 || ilo >= n || st1[ilo] != ilo {
+						cs.fail("Dtrexc", tag, "ilstOut-not-first-row-of-a-block", "ilstOut=%d (ok=%v)", ilo, ok)
+						continue
+					}
+					wre, wim := mv.moved[0], 0.0
+					if mv.moved[2] != 0 {
+						wre, wim = eig22(mv.moved)
+					}
+					distinct := true
+					for i, b := range blocks {
+						if starts[i] == st[mv.ifst] {
+							continue
+						}
+						bre, bim := b[0], 0.0
+						if sizes[i] == 2 {
+							bre, bim = eig22(b)
+						}
+						if math.Hypot(bre-wre, bim-wim) < 1e-3*(1+math.Abs(wre)) {
+							distinct = false
+						}
+					}
+					if !distinct {
+						h.c.Count("trexc_moved_block_not_identifiable", 1)
+						continue
+					}
+					gre, gim := t1.D[ilo*n+ilo], 0.0
+					if ilo+1 < n && t1.D[(ilo+1)*n+ilo] != 0 {
+						gim = math.Sqrt(math.Abs(t1.D[ilo*n+ilo+1])) * math.Sqrt(math.Abs(t1.D[(ilo+1)*n+ilo]))
+					}
+					if math.Hypot(gre-wre, gim-wim) > 1e-5*(1+math.Abs(wre)) {
+						clause := "block-at-ilstOut-is-not-the-moved-block"
+						if !ok {
+							clause += "-after-rejected-swap"
+						}
+						cs.fail("Dtrexc", tag, clause, "ok=%v ifst=%d ilst=%d ilstOut=%d: block there has eigenvalue %v±%vi, the moved block %v±%vi", ok, mv.ifst, mv.ilst, ilo, gre, gim, wre, wim)
+					}
+					if ok {
+						if d := ilo - mv.ilst; d < -1 || d > 1 {
+							cs.fail("Dtrexc", tag, "ilstOut-differs-from-ilst-by-more-than-one", "ilst=%d ilstOut=%d", mv.ilst, ilo)
+						}
+					}
+				}
+			}
 		}
 	}
 }
